@@ -136,6 +136,10 @@ func cmdCheck(args []string) int {
 		fmt.Printf("ENGINE-ERROR: load failed: %v\n", err)
 		return 2
 	}
+	if errs := g.checkSortAliases(); len(errs) > 0 {
+		fmt.Printf("ENGINE-ERROR: contracts are inconsistent: %s\n", strings.Join(errs, "; "))
+		return 2
+	}
 	kf := loadFindings(*known)
 	var cts []*Contract
 	for _, k := range sortedKeys(g.db.Contracts) {
